@@ -319,7 +319,7 @@ class Parser:
                 init = ('array', ''.join(toks))
             elif self.at('='):
                 self.next()
-                init = self.parse_assign()
+                init = self.parse_initlist() if self.at('{') else self.parse_assign()
             elif self.at('{'):
                 init = self.parse_initlist()
             elif self.at('('):
